@@ -651,7 +651,7 @@ def oracle_loess(ctx, budget):
 ULP_BUDGET = 2e3     # array-scale ulps per unit of condition number of the local normal matrices (coefficients 100x)
 
 
-def local_cond(P, x, tp, p, delta):
+def local_cond(P, x, tp, p, delta, weights=None):
     """largest condition number of the kernel-weighted local normal matrices (unit data weights), computed
     independently of the kernels under test"""
     n = len(x)
@@ -667,6 +667,8 @@ def local_cond(P, x, tp, p, delta):
             d = np.abs(xs[l:r] - xs[i])
             d = d / max(d[0], d[-1])
             k = np.sqrt((1 - d ** 3) ** 3)
+            if weights is not None:
+                k = k * np.sqrt(weights[l:r])
             A = (k[:, None] * V[l:r])
             c = np.linalg.cond(A.T @ A)
             cond = max(cond, c if np.isfinite(c) else math.inf)
@@ -743,9 +745,12 @@ def brute_worst(x, y, kw, conserve, cond):
         d = np.abs(xs[l:rr] - xs[i])
         d = d / max(d[0], d[-1])
         k = np.sqrt((1 - d ** 3) ** 3)
+        if kw.get('weights') is not None:
+            k = k * np.sqrt(kw['weights'][l:rr])
+        k = k / (np.max(k) or 1.0)          # the least-squares solution does not depend on a common factor
         coef = np.linalg.lstsq(k[:, None] * V[l:rr], k * y[l:rr], rcond=None)[0]
         ref = float(V[i] @ coef)
-        tol = 256 * np.finfo(float).eps * cond * max(1.0, float(np.max(np.abs(y))))
+        tol = 256 * np.finfo(float).eps * cond * (float(np.max(np.abs(y))) or 1.0)
         worst = max(worst, abs(r[1][i] - ref) / tol)
     return worst
 
@@ -823,6 +828,16 @@ def gen_history(rng, kind=None):
         if rng.random() < 0.25:
             kw['weights'] = rng.uniform(0.05, 1, n)
         y = gen_y(rng, x, ['smooth', 'peaks', 'noise'][int(rng.integers(0, 3))])
+        # REJECTED calls inside the history: raised up front (parameter / shape checks) or deep inside a kernel loop
+        rej = int(rng.integers(0, 12))
+        if rej == 0:
+            kw['total_points'] = n + 3                      # ValueError before anything is computed
+        elif rej == 1:
+            kw['total_points'] = p + 1                      # singular local systems: LinAlgError inside the first kernel loop
+        elif rej == 2:
+            kw['weights'] = np.ones(n + 1)                  # ValueError in the setup
+        elif rej == 3:
+            y = y[:-1]                                      # data of the wrong length
         # strategy: biased towards the cached one, whose state could leak
         calls.append({'y': y, 'kw': kw, 'conserve': bool(rng.random() < 0.3)})
     return x, calls
@@ -994,6 +1009,17 @@ def oracle_strategy_grid(ctx, budget):
                         rf = run_loess(x, y, kw, False)
                         ctx.case(('grid', rep, cls, max_iter, thr, delta, x.tobytes()), nontrivial=cls not in ('none', 'ones') and rt[0] == 'ok',
                                  kind=f'grid:weights={cls}:{"threshold" if thr else "robust"}')
+                        if max_iter == 1 and not thr:
+                            # the same call with non-default memory layouts of every array argument
+                            y2 = np.repeat(y, 2)[::2]                               # strided view
+                            y3 = np.asfortranarray(np.stack([y, y], axis=1))[:, 0]    # column of a Fortran-ordered matrix
+                            w2 = None if wts is None else wts[::-1].copy()[::-1]      # negative strides
+                            x2 = np.repeat(x, 3)[::3]
+                            for lay, (xx, yy) in (('strided', (x2, y2)), ('fortran-column', (x, y3))):
+                                rl = run_loess(xx, yy, dict(kw, weights=w2), bool(rep % 2))
+                                if not same_bits(rl, rt):
+                                    ctx.fail(f'layout:{lay}', f'loess with {lay} views of x/data and negatively strided weights differs bitwise from the contiguous call '
+                                             f'(weights class "{cls}", delta={delta})', cfg_case({'x': x, 'y': y, 'kw': kw}, {'layout': lay}))
                         if not same_bits(rt, rf):
                             what = (f'conserve_memory=True and False differ (bitwise) with user weights of class "{cls}", max_iter={max_iter}, '
                                     f'use_threshold={thr}, delta={delta}, total_points={tp}, poly_order={p}')
@@ -1002,6 +1028,99 @@ def oracle_strategy_grid(ctx, budget):
                             else:
                                 what += f'; outcomes {rt[:2] if rt[0] == "exc" else "ok"} vs {rf[:2] if rf[0] == "exc" else "ok"}'
                             ctx.fail(f'memory:grid:weights={cls}', what, cfg_case({'x': x, 'y': y, 'kw': kw}))
+
+
+DATA_SCALES = [1e-200, 1e-100, 1e-30, 1e-8, 1.0, 1e8, 1e30, 1e100, 1e200]
+WEIGHT_SCALES = [1e-30, 1e-20, 1e-12, 1e-8, 1e-4, 1.0, 1e4, 1e8, 1e12, 1e20, 1e30]
+
+
+def oracle_magnitude(ctx, budget):
+    """FIXED grid over the magnitude of the user weights (uniform and non-uniform, 1e-30 .. 1e30) and of the data
+    (1e-200 .. 1e200): (A) data exactly on a polynomial of degree <= poly_order is reproduced at every fitted point,
+    max_iter 0 and default; (B) single-pass fitted values equal the brute-force weighted lstsq fit through the specified
+    window.  A weighted least-squares fit does not depend on a common factor of the weights or of the data, so the
+    condition-scaled RELATIVE tolerance is the same at every magnitude."""
+    P, U = mods()
+    rng = np.random.default_rng(1900 + ctx.seed)          # only the non-uniform weight pattern and the noise are drawn
+    for rep in range(ctx.n(2, 6) * budget):
+        kind = ['uniform', 'random', 'geometric', 'intgrid'][rep % 4]
+        n = [12, 30, 21, 45][rep % 4]
+        x = gen_x(np.random.default_rng(77 + rep), n, kind)
+        p = rep % 3
+        tp = max(p + 4, n // 2)
+        span = float(x[-1] - x[0])
+        xs = np.polynomial.polyutils.mapdomain(x, np.array([x[0], x[-1]]), np.array([-1., 1.]))
+        ypoly = np.polynomial.polynomial.polyval(xs, np.array([3.0, -2.0, 1.5][:p + 1]))
+        ynoisy = gen_y(rng, x, 'peaks')
+        pattern = rng.uniform(0.5, 1.0, n)
+        cells = [('data', ds, None, 0) for ds in DATA_SCALES]
+        for ws in WEIGHT_SCALES:
+            for shape in ('uniform', 'nonuniform'):
+                for mi in (0, 10):
+                    cells.append(('weights', 1.0, (ws, shape), mi))
+        for ci, (what, ds, wspec, mi) in enumerate(cells):
+            wts = None if wspec is None else (np.full(n, wspec[0]) if wspec[1] == 'uniform' else pattern * wspec[0])
+            delta = 0.0 if ci % 2 else 0.2 * span
+            kw = dict(total_points=tp, poly_order=p, max_iter=mi, delta=delta, weights=wts)
+            cond = local_cond(P, x, tp, p, delta, wts)
+            label = f'data x{ds:g}' if what == 'data' else f'weights {wspec[1]} x{wspec[0]:g}'
+            ctx.case(('mag', rep, what, ds, repr(wspec), mi), nontrivial=(ds != 1.0 or (wspec is not None and wspec[0] != 1.0)),
+                     kind=f'magnitude:{what}')
+            if not np.isfinite(cond) or cond > 1e8:
+                continue
+            y = ypoly * ds
+            w_, f_, s_ = spec_determine_fits(x, tp, delta)
+            r = run_loess(x, y, kw, bool(ci % 3))
+            if r[0] != 'ok':
+                ctx.fail(f'magnitude:{what}:raises', f'loess raises {r[1]} ({r[2]}) on exact polynomial data with {label}, max_iter={mi} (cond {cond:.3g})',
+                         cfg_case({'x': x, 'y': y, 'kw': kw}))
+                continue
+            fi = np.asarray(f_)
+            err = float(np.max(np.abs(r[1][fi] - y[fi]))) / float(np.max(np.abs(y)))
+            tol = 64 * np.finfo(float).eps * cond
+            if not err <= tol:
+                ctx.fail(f'magnitude:{what}:poly-not-reproduced',
+                         f'polynomial data of degree {p} not reproduced at the fitted points with {label}, max_iter={mi}: relative error {err:.3g} > {tol:.3g} (cond {cond:.3g})',
+                         cfg_case({'x': x, 'y': y, 'kw': kw}))
+            if mi == 0:
+                yb = ynoisy * ds
+                kwb = dict(kw)
+                worst = brute_worst(x, yb, kwb, bool(ci % 2), cond)
+                if worst is None:
+                    ctx.fail(f'magnitude:{what}:raises', f'loess raises on noisy data with {label} (cond {cond:.3g})', cfg_case({'x': x, 'y': yb, 'kw': kwb}))
+                elif worst > 1:
+                    ctx.fail(f'magnitude:{what}:brute-fitted-value',
+                             f'a fitted value differs from the brute-force weighted local fit by {worst:.3g} x tolerance with {label}', cfg_case({'x': x, 'y': yb, 'kw': kwb}))
+
+
+def build_all(ctx):
+    """ONE make for props/C19.v and the two translator-obligation files (the build lock is shared with the other
+    properties); each file's theorems are discharged iff its own .vo was produced by this build"""
+    import time
+    from .common import COQ, theorems_in
+    rels = ['props/C19.v', 'props/C19_state.v', 'props/C19_solver.v']
+    t0 = time.time() - 1
+    for rel in rels[1:]:
+        try:
+            os.remove(os.path.join(COQ, rel + 'o'))
+        except OSError:
+            pass
+    n_ob = len(ctx.obligations)
+    ok = ctx.build_props(extra=['C19/Float.vo', 'C19/HistoryProofs.vo'] + [r + 'o' for r in rels[1:]])
+    all_ok = True
+    for rel in rels:
+        vo = os.path.join(COQ, rel + 'o')
+        built = os.path.exists(vo) and os.path.getmtime(vo) >= t0
+        names = [f'theorem:{n}' for n in theorems_in(rel)]
+        for nm in names:
+            if nm not in ctx.obligations[n_ob:]:
+                ctx.obligations.append(nm)
+            if built and nm not in ctx.discharged:
+                ctx.discharged.append(nm)
+        all_ok = all_ok and built
+        if not built and ok:
+            ctx.broke(f'build:{rel}', 'not built')
+    return all_ok
 
 
 def stage(ctx, name, fn, *a):
@@ -1032,15 +1151,15 @@ def run(ctx):
     ]
     ctx.gate()
     ctx.translate(['GenLoessState'])
-    ok = ctx.build_props(extra=['C19/Float.vo', 'C19/HistoryProofs.vo'])
-    ok2 = ctx.build_props(rel='props/C19_state.v')
-    ok = ok and ok2
+    ctx.translate(['GenLoessSolver'])
+    ok = build_all(ctx)
     stage(ctx, 'correspondence_fits', correspondence_fits)
     stage(ctx, 'correspondence_fill', correspondence_fill)
     stage(ctx, 'correspondence_kernels', correspondence_kernels)
     stage(ctx, 'correspondence_driver', correspondence_driver)
     budget = 1 if (ok and not ctx.broken) else 4
     stage(ctx, 'oracle_strategy_grid', oracle_strategy_grid, budget)
+    stage(ctx, 'oracle_magnitude', oracle_magnitude, budget)
     stage(ctx, 'oracle_fits', oracle_fits, budget)
     stage(ctx, 'oracle_loess', oracle_loess, budget)
     stage(ctx, 'oracle_poly', oracle_poly, budget)
@@ -1080,6 +1199,22 @@ def replay(rep):
         if 'weights' in kw and kw['weights'] is not None:
             kw['weights'] = np.array(kw['weights'])
         rt, rf = run_loess(x, y, kw, True), run_loess(x, y, kw, False)
+        if str(rep.get('key', '')).startswith('magnitude:'):
+            cond = local_cond(P, x, kw['total_points'], kw['poly_order'], kw['delta'], kw.get('weights'))
+            if 'brute' in rep['key']:
+                worst = brute_worst(x, y, kw, True, cond)
+                print('fitted values vs brute-force weighted fit: worst difference / tolerance =', worst)
+                return 0 if (worst is not None and worst <= 1) else 1
+            w_, f_, s_ = spec_determine_fits(x, kw['total_points'], kw['delta'])
+            r = run_loess(x, y, kw, True)
+            if r[0] != 'ok':
+                print('loess raises', r[1:])
+                return 1
+            fi = np.asarray(f_)
+            err = float(np.max(np.abs(r[1][fi] - y[fi]))) / float(np.max(np.abs(y)))
+            tol = 64 * np.finfo(float).eps * cond
+            print(f'relative error at the fitted points {err:.3g}, tolerance {tol:.3g}')
+            return 0 if err <= tol else 1
         if str(rep.get('key', '')).startswith('brute:'):
             cond = local_cond(P, x, kw['total_points'], kw['poly_order'], kw['delta'])
             worst = brute_worst(x, y, kw, True, cond)
